@@ -9,8 +9,23 @@ import PycommProofs.GenericProofs
 import PycommProofs.LogixBitsProofs
 import PycommProofs.LogixPlanProofs
 import PycommProofs.CodecRoundTrip
+import PycommProofs.LE2WBasic
+import PycommProofs.LE2WTag
+import PycommProofs.LE2WFrag
 namespace Pycomm.Lgx.E2E
 open Pycomm Pycomm.Tgt Pycomm.Path Pycomm.Lgx Pycomm.Lgx.Cl
+
+theorem readBytes_of (p : Project) (loc : Loc) (n sz : Nat) (s : Symbol)
+    (hty : ∀ b, loc.ty ≠ .boolBit b)
+    (hs : p.symbolOf loc = some s) (hsz : p.elSize loc.ty = some sz)
+    (hmem : loc.offset + n * sz ≤ s.mem.length) :
+    readBytes p loc n = some ((s.mem.drop loc.offset).take (n * sz)) := by
+  unfold readBytes
+  simp only [hs, hsz]
+  cases hc : loc.ty with
+  | boolBit b => exact absurd hc (hty b)
+  | atomic c => simp only [if_pos hmem]
+  | struct t => simp only [if_pos hmem]
 
 -- PROPERTY THEOREMS
 
@@ -25,14 +40,27 @@ theorem write_e2e (st : LState) (cap : Nat) (path : Bytes) (segs : List PSeg) (l
     (hlen : value.length = n * sz) (hmem : loc.offset + n * sz ≤ s.mem.length) :
     exchange st cap (writeMsg path (typeBytes st.proj loc.ty) n value) =
       ({ st with proj := written st.proj loc loc.offset value }, {}) := by
-  sorry
+  exact exchange_write st cap path segs loc n sz value s hp hr hty hn hs hsz hlen hmem
 
 /-- C02 (frame, pure): splicing `d` at `off` keeps the length and every byte outside [off, off + |d|) -/
 theorem splice_frame (mem d : Bytes) (off : Nat) (h : off + d.length ≤ mem.length) :
     (splice mem off d).length = mem.length ∧
     ((splice mem off d).drop off).take d.length = d ∧
     ∀ j, (j < off ∨ off + d.length ≤ j) → (splice mem off d)[j]? = mem[j]? := by
-  sorry
+  have hA : (mem.take off).length = off := by rw [List.length_take]; omega
+  refine ⟨?_, ?_, ?_⟩
+  · simp only [splice, List.length_append, List.length_take, List.length_drop]; omega
+  · unfold splice
+    rw [List.append_assoc, List.drop_append_of_le_length (by omega), List.drop_of_length_le (by omega),
+      List.nil_append, List.take_left']
+    rfl
+  · intro j hj
+    unfold splice
+    rcases hj with hj | hj
+    · rw [List.append_assoc, List.getElem?_append_left (by omega), List.getElem?_take_of_lt hj]
+    · rw [List.getElem?_append_right (by simp only [List.length_append]; omega), List.getElem?_drop]
+      congr 1
+      simp only [List.length_append]; omega
 
 /-- C02 (frame): a write-type effect leaves templates, schedules, the symbol lists' shape, and every symbol
     with another instance id untouched; only `mem` of symbols with this instance id changes -/
@@ -43,7 +71,22 @@ theorem written_frame (p : Project) (loc : Loc) (off : Nat) (d : Bytes) :
         s'.inst = s.inst ∧ s'.name = s.name ∧ s'.symbolType = s.symbolType ∧ s'.dims = s.dims ∧
         (s.inst ≠ loc.symInst ∨ loc.scope ≠ none → s' = s)) ∧
     (written p loc off d).writeLog = p.writeLog ++ [(loc.symInst, off, d.length)] := by
-  sorry
+  refine ⟨templates_written p loc off d, ?_, ?_, ?_⟩
+  · unfold written logWrite Project.updateSymbol
+    cases loc.scope <;> simp
+  · intro i s hi
+    unfold written logWrite Project.updateSymbol
+    cases hsc : loc.scope with
+    | none =>
+      simp only [List.getElem?_map, hi, Option.map_some]
+      refine ⟨_, rfl, ?_⟩
+      by_cases hc : s.inst = loc.symInst
+      · simp [hc]
+      · simp [hc]
+    | some a =>
+      exact ⟨s, hi, rfl, rfl, rfl, rfl, fun _ => rfl⟩
+  · unfold written logWrite Project.updateSymbol
+    cases loc.scope <;> rfl
 
 /-- C02: after the write, reading the same location returns the written bytes -/
 theorem write_then_read (p : Project) (loc : Loc) (n sz : Nat) (value : Bytes) (s : Symbol)
@@ -51,7 +94,12 @@ theorem write_then_read (p : Project) (loc : Loc) (n sz : Nat) (value : Bytes) (
     (hs : p.symbolOf loc = some s) (hsz : p.elSize loc.ty = some sz)
     (hlen : value.length = n * sz) (hmem : loc.offset + n * sz ≤ s.mem.length) :
     readBytes (written p loc loc.offset value) loc n = some value := by
-  sorry
+  have hf := splice_frame s.mem value loc.offset (by omega)
+  rw [readBytes_of _ loc n sz _ hty (symbolOf_written p loc _ _ s hs)
+    (by rw [elSize_congr _ _ (templates_written p loc _ _)]; exact hsz)
+    (by show loc.offset + n * sz ≤ (splice s.mem loc.offset value).length; rw [hf.1]; exact hmem)]
+  show some (((splice s.mem loc.offset value).drop loc.offset).take (n * sz)) = some value
+  rw [← hlen, hf.2.1]
 
 /-- C02: the fragmented write loop sends segments that the controller accepts one after the other, and the
     total effect on the tag's memory is the whole value spliced in once; the write log shows the tiling -/
@@ -70,7 +118,20 @@ theorem write_frag_e2e (st : LState) (cap : Nat) (path : Bytes) (segs : List PSe
     r.1.proj.writeLog = st.proj.writeLog ++
       (K.writeFragments (writeSegSize cap path (typeBytes st.proj loc.ty)) value).map
         (fun f => (loc.symInst, loc.offset + f.1, f.2.length)) := by
-  sorry
+  intro r
+  have _ := hne
+  have hr2 : r = writeFragSend path (typeBytes st.proj loc.ty) n cap st
+      (K.writeFragments (writeSegSize cap path (typeBytes st.proj loc.ty)) value) := rfl
+  generalize writeSegSize cap path (typeBytes st.proj loc.ty) = sg at hseg hr2 ⊢
+  have hw : K.writeFragments sg value = K.writeSegments sg value (value.length + 1) 0 := by
+    unfold K.writeFragments; rw [if_neg (by omega)]
+  rw [hw] at hr2 ⊢
+  obtain ⟨i1, i2, ⟨s'', i3, i3l, i3v⟩, i4, i5⟩ := frag_loop st cap path segs loc n sz value s hp hty hn hsz hlen hl32 hmem sg hseg
+    (value.length + 1) 0 st (Nat.zero_le _) (by omega) hr rfl ⟨s, hs, rfl, by simp⟩
+  rw [← hr2] at i1 i2 i3 i4 i5
+  refine ⟨i1, i2, ?_, ?_⟩
+  · rw [readBytes_of _ loc n sz s'' hty i3 (by rw [elSize_congr _ _ i4]; exact hsz) (by omega), ← hlen, i3v]
+  · rw [i5]
 
 /-- C02: a Read-Modify-Write request built from the client's masks changes the located integer to exactly
     `rmwResult` (whose bit-level meaning is C02 `rmw_law`), and nothing else -/
@@ -82,7 +143,10 @@ theorem rmw_e2e (st : LState) (cap : Nat) (path : Bytes) (segs : List PSeg) (loc
     exchange st cap (rmwMsg path sz m) =
       ({ st with proj := (written st.proj loc loc.offset
             (le sz (K.rmwResult sz (leVal ((s.mem.drop loc.offset).take sz)) m))) }, {}) := by
-  sorry
+  have h := exchange_4E st cap path (le 2 sz ++ K.maskBytes sz m.orM ++ K.maskBytes sz m.andM) segs loc hp hr
+  rw [rmwTag_ok st loc c sz m s hty hsz hint hs hmem] at h
+  rw [← h]
+  simp only [rmwMsg, List.append_assoc]
 
 
 end Pycomm.Lgx.E2E
